@@ -1066,6 +1066,40 @@ func ruleBufferBounded(p *Prog, r *Out) {
 		return true
 	})
 	r.check(adv, "recvBody counts every DATA byte", p.pos(fd.Pos()), "recvBody += len(data)", "Stream.recvBody is no longer advanced by the length of each DATA payload: the body limit and the content-length comparison see a wrong total")
+	// ... and the order within the DATA case is count, compare, append: a
+	// comparison that runs before the count lets the frame that crosses the
+	// limit through
+	ast.Inspect(fd.Body, func(n ast.Node) bool {
+		cc, ok := n.(*ast.CaseClause)
+		if !ok {
+			return true
+		}
+		ia, ig, ip := -1, -1, -1
+		arg := ""
+		for i, s := range cc.Body {
+			switch x := s.(type) {
+			case *ast.AssignStmt:
+				if x.Tok == token.ADD_ASSIGN && len(x.Lhs) == 1 && p.isFieldSel(x.Lhs[0], "Stream", "recvBody") && ia < 0 {
+					ia = i
+				}
+			case *ast.IfStmt:
+				t := p.text(x.Cond)
+				if strings.Contains(t, "maxRequestBodySize") && strings.Contains(t, "recvBody") && ig < 0 {
+					ig = i
+				}
+			case *ast.ExprStmt:
+				if c, isC := x.X.(*ast.CallExpr); isC && strings.HasSuffix(p.calleeOf(c), ".AppendBody") && len(c.Args) == 1 {
+					ip = i
+					arg = p.text(c.Args[0])
+				}
+			}
+		}
+		if ip < 0 {
+			return true
+		}
+		r.check(ia >= 0 && ig > ia && ip > ig && arg == "data", "body bytes are counted, then compared, then appended", p.pos(cc.Pos()), "recvBody += len(data); if recvBody > limit { reject }; AppendBody(data)", "the DATA case no longer counts the payload into recvBody before comparing with MaxRequestBodySize and appending that same payload: the frame that crosses the limit is appended, and a request that ends on it reaches the handler with a body above the limit")
+		return true
+	})
 	// carried-over header bytes: the bound is one function, and every place that
 	// keeps the bytes of a cut field asks it about exactly those bytes and gives
 	// the connection up when it says so
